@@ -585,6 +585,10 @@ impl<TokenIter: Iterator<Item = Result<Token>>> Parser<TokenIter> {
                                     if let Some(transformer) =
                                         syntax_env.get(&first.expect_symbol()?)
                                     {
+                                        #[cfg(ruschm_verif)]
+                                        let _verif_guard = crate::verif_hooks::enter_expansion().map_err(|_| {
+                                            ErrorData::from(LogicError::Extension("verif: budget exhausted (macro expansion nesting)".to_string())).no_locate()
+                                        })?;
                                         let remained = DatumBody::Pair(pair).locate(location);
                                         let expanded_datum =
                                             transformer.transform(keyword, remained)?;
